@@ -4,6 +4,7 @@
   a governance message from a signer other than the authority fails, and a failed message changes no state.
 -/
 import AllianceProofs
+import Generated.Facts
 namespace Alliance
 namespace C16
 open Dec
@@ -118,6 +119,11 @@ theorem create_unique (s : Signer) (f : AllianceFields) (d : Denom) (w : World) 
 example : ∃ w', (step (.createAlliance .authority
     { denom := some 0, weight := some one, wmin := some 0, wmax := some (2 * one), takeRate := some 0,
       changeRate := some one, changeIntv := 0 }) (default : World)) = (.ok (), w') := ⟨_, rfl⟩
+
+/-- fact (regenerated from the source on every run): `UpdateAllianceAsset` assigns exactly the whitelisted fields -/
+theorem update_whitelist_as_modelled : Generated.updateWhitelist =
+    ["LastRewardChangeTime", "RewardChangeInterval", "RewardChangeRate", "RewardWeight", "RewardWeightRange", "TakeRate"] := by
+  decide
 
 end C16
 end Alliance
